@@ -175,6 +175,18 @@ def check_case(case, want_transitions=None):
         return Verdict("fail", "html5lib tokenizer raised %r on %s" % (e, short(text)), "exception:" + type(e).__name__,
                        nontrivial=nontrivial)
     got = _concat(got)
+    if got == want and case.get("reads") and not case.get("skip"):
+        # how the characters arrive must not show in the tokens at all - not even in where one character token ends and the next
+        # begins (a tree builder that makes one text node per token, and the whitespace filter behind it, see that granularity)
+        try:
+            one_shot = h5.tokenize_raw(text, state, last, h5_cdata)
+            in_reads = h5.tokenize_raw(_ShortReads(text, case["reads"]), state, last, h5_cdata)
+        except Exception as e:
+            return Verdict("fail", "html5lib tokenizer raised %r on %s (short reads %s)" % (e, short(text), case["reads"]), "exception:" + type(e).__name__, nontrivial=nontrivial)
+        if one_shot != in_reads:
+            k = next((i for i, (a, b) in enumerate(zip(one_shot, in_reads)) if a != b), min(len(one_shot), len(in_reads)))
+            return Verdict("fail", "input %s state=%s: token boundaries depend on how the text arrives: read in one piece token %d is %s, with reads of %s characters %s"
+                           % (short(text, 120), state, k, short(one_shot[k:k + 2], 120), case["reads"], short(in_reads[k:k + 2], 120)), "granularity:" + state, nontrivial=True)
     if got == want:
         return Verdict("pass", nontrivial=nontrivial)
     # known deviations (only while listed as 'known')
